@@ -345,14 +345,14 @@ theorem siteParams_pin : Gen.LossySites.siteParams = [("ring_add_c0", ["size"]),
   ("Striped_Len_r0", ["result"]),
   ("Striped_Len_r1", ["result"])] := by rfl
 
-theorem shape_pin : Gen.LossySites.shape = [("newRing", [0, 0, 2, 1, 0, 0]),
-  ("ring_add", [2, 0, 3, 3, 0, 2]),
-  ("ring_drainTo", [3, 1, 6, 0, 0, 0]),
-  ("ring_len", [0, 0, 0, 1, 0, 0]),
-  ("NewStriped", [0, 0, 0, 1, 0, 0]),
-  ("Striped_Add", [4, 0, 4, 4, 1, 1]),
-  ("Striped_expandOrRetry", [17, 2, 24, 1, 0, 1]),
-  ("Striped_DrainTo", [3, 1, 3, 0, 0, 0]),
-  ("Striped_Len", [3, 2, 4, 2, 0, 0])] := by rfl
+theorem shape_pin : Gen.LossySites.shape = [("newRing", [0, 0, 2, 1, 0, 0, 0]),
+  ("ring_add", [2, 0, 3, 3, 0, 2, 0]),
+  ("ring_drainTo", [3, 1, 6, 0, 0, 0, 0]),
+  ("ring_len", [0, 0, 0, 1, 0, 0, 0]),
+  ("NewStriped", [0, 0, 0, 1, 0, 0, 0]),
+  ("Striped_Add", [4, 0, 4, 4, 1, 1, 0]),
+  ("Striped_expandOrRetry", [17, 2, 24, 1, 0, 1, 0]),
+  ("Striped_DrainTo", [3, 1, 3, 0, 0, 0, 0]),
+  ("Striped_Len", [3, 2, 4, 2, 0, 0, 0])] := by rfl
 
 end OtterVerif.Pin.LossySites
